@@ -97,6 +97,7 @@ def run(chk):
         s = by_id[b["id"]]
         for e in b["errs"]:
             hits.append({"why": e["why"], "feats": pb.feats_of(s["prog"]), "size": len(json.dumps(s["prog"])),
+                         "sampled": len(s["edits"]) > 1,        # random walks (thorough tier); single edits are exhaustive
                          "what": f"base {s['base']} after {'+'.join(s['edits'])}: {e['why']} ({e['at']})",
                          "replay": pb.replay_doc("C15", "pair", {"base": bases[s["base"]]["prog"], "program": s["prog"], "edits": s["edits"],
                                                                  "base_name": s["base"], "why": e["why"], "at": e["at"]})})
